@@ -200,21 +200,72 @@ def accumulator(chk, fn, rule='C19-R3'):
     acc = stores[0].value.id
     # definitions of the accumulator
     inits, adds, others = [], [], []
+
+    def arr_term(e):
+        """arr[<e>] or dtype(arr[<e>]) -> (subscript node, cast?)"""
+        if isinstance(e, ast.Call) and isinstance(e.func, ast.Name) and e.func.id == 'dtype' and len(e.args) == 1 and not e.keywords:
+            t = arr_term(e.args[0])
+            return (t[0], True) if t else None
+        if isinstance(e, ast.Subscript) and isinstance(e.value, ast.Name) and e.value.id == 'arr':
+            return (e, False)
+        return None
+
+    class Add:
+        """one accumulation statement, normalised: .value = the arr[...] subscript, .cast = the term is cast to the output type,
+        .via = name of a type-dispatched add helper (acc = helper(acc, arr[e], <scalar of the output type>)) or None"""
+        def __init__(self, node, sub, cast, via=None):
+            self.node, self.value, self.cast, self.lineno, self.via = node, sub, cast, node.lineno, via
     for n in walk_no_nested(fn):
         if isinstance(n, ast.Assign) and any(isinstance(t, ast.Name) and t.id == acc for t in n.targets):
+            v = n.value
+            if isinstance(v, ast.Call) and isinstance(v.func, ast.Name) and v.func.id != 'dtype' and len(v.args) == 3 and not v.keywords \
+                    and isinstance(v.args[0], ast.Name) and v.args[0].id == acc and arr_term(v.args[1]) and not arr_term(v.args[1])[1]:
+                adds.append(Add(n, arr_term(v.args[1])[0], False, via=(v.func.id, v.args[2])))
+                continue
+            if isinstance(v, ast.Call) and isinstance(v.func, ast.Name) and v.func.id == 'dtype' and len(v.args) == 1 and isinstance(v.args[0], ast.BinOp):
+                v = v.args[0]          # acc = dtype(acc + term)
+            if isinstance(v, ast.BinOp) and isinstance(v.op, ast.Add):
+                l, r = v.left, v.right
+                t = arr_term(r) if isinstance(l, ast.Name) and l.id == acc else (arr_term(l) if isinstance(r, ast.Name) and r.id == acc else None)
+                if t:
+                    adds.append(Add(n, t[0], t[1]))
+                    continue
             inits.append(n)
         elif isinstance(n, ast.AugAssign) and isinstance(n.target, ast.Name) and n.target.id == acc:
-            if isinstance(n.op, ast.Add) and isinstance(n.value, ast.Subscript) and isinstance(n.value.value, ast.Name) \
-                    and n.value.value.id == 'arr':
-                adds.append(n)
+            t = arr_term(n.value) if isinstance(n.op, ast.Add) else None
+            if t:
+                adds.append(Add(n, t[0], t[1]))
             else:
                 others.append(n)
     ok_init = len(inits) == 1 and isinstance(inits[0].value, ast.Call) and len(inits[0].value.args) == 1 \
         and unparse(inits[0].value.args[0]) == 'offset'
     chk.check(ok_init and not others, rule, UTIL, f, 'accumulator starts at dtype(offset) and is only advanced by += arr[.]',
-              f'init={unparse(inits[0]) if inits else None}; adds={[unparse(a) for a in adds]}',
+              f'init={unparse(inits[0]) if inits else None}; adds={[unparse(a.node) for a in adds]}',
               f'unexpected accumulator updates: init={[unparse(i) for i in inits]} others={[unparse(o) for o in others]}',
               node=inits[0] if inits else fn)
+    # element type of the accumulation.  Two ways to get it wrong, both seen: (F16) the plain `total += arr[i]` lets numba unify
+    # uint64 + int64 to float64, rounding integer sums above 2**53; (F30) casting every term to the output type first,
+    # `dtype(total + dtype(arr[i]))`, truncates float terms that go into an integer output (0.5+0.5+... stays 0) and rounds sums to
+    # float32 term by term.  Right is a dispatch on the TYPES: integer (or bool) terms into an integer output are added in the
+    # output type, every other pairing is added in the promoted type and converted on the store -- as numpy.cumsum(arr, out=out) does.
+    dt = [n for n in walk_no_nested(fn) if isinstance(n, ast.Assign) and len(n.targets) == 1 and unparse(n.targets[0]) == 'dtype']
+    okdt = len(dt) == 1 and unparse(dt[0].value) in ('out.dtype.type',)
+    plain = [a for a in adds if a.via is None and not a.cast]
+    castall = [a for a in adds if a.via is None and a.cast]
+    via = [a for a in adds if a.via is not None]
+    okvia, whyvia = True, ''
+    for a in via:
+        o, w = _typed_add_helper(chk.src, a.via[0], a.via[1], fn)
+        okvia, whyvia = okvia and o, whyvia or w
+    chk.check(okdt and bool(via) and not plain and not castall and okvia, rule, UTIL, f,
+              'integer terms into an integer output are added in the output type, every other pairing in the promoted type (type-dispatched add)',
+              f'dtype = {unparse(dt[0].value) if dt else None}; {len(adds)} accumulation(s) through {sorted({a.via[0] for a in via})}',
+              (f'{unparse(plain[0].node)}: the term is added in its own type; for a signed (or list) input and an unsigned 64-bit output numba unifies uint64 + int64 to float64, '
+               'so partial sums above 2**53 are rounded and a float total is returned' if plain else
+               f'{unparse(castall[0].node)}: every term is converted to the output type before it is added; a float input into an integer output is truncated term by term '
+               '([0.5]*4 sums to 0, numpy.cumsum(arr, out=out) gives [0,1,1,2]) and sums into float32 are rounded term by term' if castall else
+               f'type-dispatched add helper not as required: {whyvia}'),
+              node=(plain + castall + via)[0].node if adds else fn)
     # loop: exactly one add of arr[loopvar] before the store, in the loop over range(N-1); plus arr[-1] outside
     loops = [n for n in body if isinstance(n, ast.For)]
     ok_loop = False
@@ -222,15 +273,15 @@ def accumulator(chk, fn, rule='C19-R3'):
     if len(loops) == 1:
         lp = loops[0]
         lv = lp.target.id if isinstance(lp.target, ast.Name) else None
-        ladds = [a for a in adds if any(a is x for x in ast.walk(lp))]
+        ladds = [a for a in adds if any(a.node is x for x in ast.walk(lp))]
         lstores = [s for s in stores if any(s is x for x in ast.walk(lp))]
         if len(ladds) == 1 and len(lstores) == 1 and lv and unparse(ladds[0].value.slice) == lv:
             # the add must be an unconditional statement of the loop body; the store follows it (possibly under a guard)
-            seq = [x for x in walk_no_nested(lp) if x is ladds[0] or x is lstores[0]]
-            ok_loop = len(seq) == 2 and seq[0] is ladds[0] and any(x is ladds[0] for x in lp.body)
+            seq = [x for x in walk_no_nested(lp) if x is ladds[0].node or x is lstores[0]]
+            ok_loop = len(seq) == 2 and seq[0] is ladds[0].node and any(x is ladds[0].node for x in lp.body)
             detail = f'loop adds arr[{lv}] then stores'
         else:
-            detail = f'loop adds={[unparse(a) for a in ladds]} stores={[unparse(s) for s in lstores]}'
+            detail = f'loop adds={[unparse(a.node) for a in ladds]} stores={[unparse(s) for s in lstores]}'
         tail = [a for a in adds if a not in ladds]
         # every read of arr is an accumulation (so read coverage above == add coverage)
         reads = [n for n in walk_no_nested(fn) if isinstance(n, ast.Subscript) and isinstance(n.value, ast.Name)
@@ -238,14 +289,63 @@ def accumulator(chk, fn, rule='C19-R3'):
         ok_reads = len(reads) == len(adds)
         chk.check(ok_loop and len(tail) <= 1 and ok_reads, rule, UTIL, f,
                   'in the loop the element is added before the store; every read of arr is an accumulation',
-                  f'{detail}; tail={[unparse(t) for t in tail]}',
-                  f'accumulation order broken: {detail}; tail adds={[unparse(t) for t in tail]}; reads={len(reads)} adds={len(adds)}', node=lp)
+                  f'{detail}; tail={[unparse(t.node) for t in tail]}',
+                  f'accumulation order broken: {detail}; tail adds={[unparse(t.node) for t in tail]}; reads={len(reads)} adds={len(adds)}', node=lp)
     else:
         chk.refuted(rule, UTIL, f, 'single accumulation loop', f'{len(loops)} top-level loops', node=fn)
     rets = [n for n in walk_no_nested(fn) if isinstance(n, ast.Return)]
     chk.check(len(rets) >= 1 and all(isinstance(r.value, ast.Name) and r.value.id == acc for r in rets), rule, UTIL, f,
               'the accumulator is returned', f'returns {[unparse(r) for r in rets]}', 'return value is not the accumulator',
               node=rets[0] if rets else fn)
+
+
+def _typed_add_helper(src, name, like_arg, caller):
+    """The helper `name(total, x, like)` must be implemented through numba.extending.overload with exactly this dispatch:
+       x integer/bool AND like integer  ->  T(total + T(x)) with T the type of `like`;   otherwise  ->  total + x.
+    `like_arg` (third argument at the call) must be a scalar of the output type: dtype(0) or a name bound to it."""
+    mod = src.tree(UTIL)
+    la = unparse(like_arg)
+    if la not in ('dtype(0)',):
+        ds = [n for n in walk_no_nested(caller) if isinstance(n, ast.Assign) and len(n.targets) == 1 and unparse(n.targets[0]) == la]
+        if not (len(ds) == 1 and unparse(ds[0].value) in ('dtype(0)', 'dtype(offset)', 'out.dtype.type(0)')):
+            return False, f'third argument {la} is not a scalar of the output type'
+    ovs = [n for n in mod.body if isinstance(n, ast.FunctionDef) and any(isinstance(d, ast.Call) and dotted(d.func).split('.')[-1] == 'overload' and d.args
+                                                                         and unparse(d.args[0]) == name for d in n.decorator_list)]
+    if len(ovs) != 1:
+        return False, f'{len(ovs)} numba overloads of {name} found'
+    ov = ovs[0]
+    ps = [a.arg for a in ov.args.args]
+    if len(ps) != 3:
+        return False, 'overload signature is not (total, x, like)'
+    ifs = [n for n in ov.body if isinstance(n, ast.If)]
+    if len(ifs) != 1:
+        return False, 'overload does not branch on the argument types'
+    t = unparse(ifs[0].test).replace(' ', '')
+    cond = isinstance(ifs[0].test, ast.BoolOp) and isinstance(ifs[0].test.op, ast.And) and f'isinstance({ps[1]},' in t and 'types.Integer' in t.split(f'isinstance({ps[2]},')[0] \
+        and f'isinstance({ps[2]},types.Integer)' in t
+    if not cond:
+        return False, f'dispatch condition is "{unparse(ifs[0].test)[:80]}", need: x integer/bool and like integer'
+
+    def impl_of(stmts):
+        fs = [n for n in stmts if isinstance(n, ast.FunctionDef)]
+        if len(fs) != 1:
+            return None, None
+        rs = [n for n in walk_no_nested(fs[0]) if isinstance(n, ast.Return)]
+        return (fs[0], rs[0].value) if len(rs) == 1 else (None, None)
+    fi, ri = impl_of(ifs[0].body)
+    fo, ro = impl_of(ifs[0].orelse)
+    if fi is None or fo is None:
+        return False, 'each branch must define one implementation with one return'
+    pi, po = [a.arg for a in fi.args.args], [a.arg for a in fo.args.args]
+    tdef = [n for n in ifs[0].body if isinstance(n, ast.Assign) and len(n.targets) == 1 and isinstance(n.targets[0], ast.Name) and unparse(n.value) == ps[2]]
+    T = tdef[0].targets[0].id if tdef else None
+    ok_int = T is not None and len(pi) == 3 and unparse(ri).replace(' ', '') in (f'{T}({pi[0]}+{T}({pi[1]}))', f'{T}({T}({pi[1]})+{pi[0]})')
+    ok_oth = len(po) == 3 and unparse(ro).replace(' ', '') in (f'{po[0]}+{po[1]}', f'{po[1]}+{po[0]}')
+    if not ok_int:
+        return False, f'integer implementation returns {unparse(ri)[:50]}, need T(total + T(x)) with T = type of like'
+    if not ok_oth:
+        return False, f'general implementation returns {unparse(ro)[:50]}, need total + x'
+    return True, ''
 
 
 # ------------------------------------------------------------------ call sites
@@ -273,8 +373,16 @@ def _len_of(node, fn, depth=0):
         cn = dotted(node.func)
         if cn in ('np.empty', 'np.zeros', 'np.ones') and node.args:
             return _int_of(node.args[0], fn)
-        if cn == 'np.array' and node.args:
+        if cn in ('np.array', 'np.asarray') and node.args:
             return _len_of(node.args[0], fn, depth + 1)
+        if cn == 'np.fromiter' and node.args:
+            # np.fromiter(<generator over X without filter>, dtype, count=len(X))  has len(X) items
+            cnt = [k.value for k in node.keywords if k.arg == 'count'] or list(node.args[2:3])
+            g = node.args[0]
+            if isinstance(g, ast.GeneratorExp) and len(g.generators) == 1 and not g.generators[0].ifs:
+                n_it = _len_of(g.generators[0].iter, fn, depth + 1)
+                if not cnt or (_int_of(cnt[0], fn) is not None and _int_of(cnt[0], fn) == n_it):
+                    return n_it
     if isinstance(node, ast.ListComp) and len(node.generators) == 1 and not node.generators[0].ifs:
         return _len_of(node.generators[0].iter, fn, depth + 1)
     return Lin.sym(f'len({unparse(node)})')
@@ -326,6 +434,16 @@ def callsites(chk):
                 if ini is None or fin is None or 'arr' not in args or 'out' not in args:
                     chk.unknown('C19-R5', rel, q, key, 'flags or arrays not literal', node=node)
                     continue
+                # numba cannot type an EMPTY reflected list ("cannot compute fingerprint of empty list"): a call site that builds the
+                # input as a Python list fails for length 0, which the property includes
+                av = args['arr']
+                if isinstance(av, ast.Name):
+                    ds_ = [n_ for n_ in walk_no_nested(fn) if isinstance(n_, ast.Assign) and len(n_.targets) == 1 and unparse(n_.targets[0]) == av.id]
+                    av = ds_[-1].value if len(ds_) == 1 else av
+                is_list = isinstance(av, (ast.List, ast.ListComp)) or (isinstance(av, ast.Call) and dotted(av.func) in ('list', 'sorted'))
+                chk.check(not is_list, 'C19-R5', rel, q, key + ': input is an array, not a Python list', unparse(av)[:50],
+                          f'the input {unparse(av)[:60]} is a Python list: for an empty list numba raises "cannot compute fingerprint of empty list", '
+                          'so the length-0 case fails although the output length is right', node=node, nontrivial=False)
                 la = _len_of(args['arr'], fn)
                 lo = _len_of(args['out'], fn)
                 if la is None or lo is None:
